@@ -3,6 +3,7 @@ import DendroModel.Theory.C02Assign
 import DendroModel.Theory.C02Fuel
 import DendroModel.Theory.C02List
 import DendroModel.Theory.C02PFuel
+import DendroModel.Theory.C02Nexus
 /-! C02 — property theorems about the model of `Model/C02.lean` (the definitions `drv_c02` executes).
 
 Every `theorem` directly inside `namespace DendroModel.C02` of this file is an obligation; helper lemmas live in
@@ -664,19 +665,6 @@ theorem nexus_translate_roundtrip (o : WOpts) (ro : ROpts) (hc : Consistent o.ps
 
 namespace Aux
 
-theorem skipWs_prefix : ∀ (ws inp : Str), (∀ c ∈ ws, isUncap c = true) → skipWs (ws ++ inp) = skipWs inp := by
-  intro ws
-  induction ws with
-  | nil => intro inp _; rfl
-  | cons c cs ih =>
-    intro inp h
-    simp only [List.cons_append, skipWs, h c (by simp), if_true]
-    exact ih inp (fun d hd => h d (by simp [hd]))
-
-theorem next_skip (pu : Bool) (f : Nat) (ws inp : Str) (cm : List Str) (h : ∀ c ∈ ws, isUncap c = true) :
-    next pu (f + 1) (ws ++ inp) cm = next pu (f + 1) inp cm := by
-  rw [next, next, skipWs_prefix ws inp h]
-
 theorem taxlabels_tokens' (ps uu pu : Bool) (hc : Consistent ps uu pu) : ∀ (ns : List Str),
     (∀ l ∈ ns, l ≠ [] ∧ ∀ c ∈ l, labelChar c = true) → ∀ (ws : Str), (∀ c ∈ ws, isUncap c = true) →
     (tokenizeAll pu (ws ++ taxlabelsText ps uu ns)).toks.map (·.text) = ns ++ [[';']] ∧
@@ -756,6 +744,90 @@ theorem newick_roundtrip_tree_undefined (o : WOpts) (ro : ROpts) (hc : Consisten
     parseText ro {} (writeTree o 0 none t ++ ['\n']) = some ([⟨0, none, t⟩], ⟨[], taxaOf ro (Aux.toRT o t), false⟩) := by
   rw [newick_roundtrip o ro hc 0 none t hok hws (by simp) hd, Aux.carried_tree o ro ho t hcar]
   simp [comments, treeComments, rootingState, hr]
+
+/-! ### the NEXUS TREES block, text to trees -/
+
+open Aux in
+/-- NEXUS TREES block END TO END (no TRANSLATE), on the text the model writer produces for the block
+    (`treesBlockText`: `BEGIN TREES;`, one `    TREE name = <statement>` line per tree with the name through
+    `escape_nexus_token`, `END;` — compared with the library's block as token streams on every run) and the block reader
+    `nexusBlock` (`_parse_trees_block` + `_parse_tree_statement`, compared with the library's reading on every run), over the
+    namespace `ns` the TAXA block declared (see `taxlabels_tokens` for how that list comes back): every tree comes back
+    under ITS NAME (tree labels / `TREE name` round trip), with the structure, rooting and weight of its statement, taxon
+    labels resolved by label before taxon number; the namespace is unchanged.  Hypotheses: consistent options; names
+    admissible labels; trees `OkT`, write something, weights number texts, no label twice per tree; every taxon label is
+    in `ns`; `ns` has no two case variants of a label. -/
+theorem nexus_trees_roundtrip (o : WOpts) (ro : ROpts) (hc : Consistent o.ps o.uu ro.pu) (ns : List Str)
+    (trees : List (Str × WT))
+    (hok : ∀ x ∈ trees, (x.1 ≠ [] ∧ ∀ c ∈ x.1, labelChar c = true) ∧ OkT o x.2.2.2 ∧ WritesSomething o x.2.2.2 ∧
+      (∀ w, x.2.2.1 = some w → WeightOk w) ∧ (taxaOf ro (toRT o x.2.2.2)).Nodup ∧ ∀ z ∈ taxaOf ro (toRT o x.2.2.2), z ∈ ns)
+    (hU : CaseCons ro.cf ns) :
+    nexusBlock ro ns (treesBlockText o [] trees) = some (trees.map (namedResult o ro), ⟨[], ns, true⟩) := by
+  -- tokens of the block
+  obtain ⟨gs, hgs, hlines⟩ := lines_tokens o ro.pu hc trees
+    (fun x hx => ⟨(hok x hx).1, (hok x hx).2.1, (hok x hx).2.2.1, (hok x hx).2.2.2.1⟩) ['\n'] (by decide)
+  let R := treeLines o trees ++ endBlock
+  have etext : treesBlockText o [] trees = [] ++ (['B', 'E', 'G', 'I', 'N'] ++ (' ' :: ([] ++ (['T', 'R', 'E', 'E', 'S'] ++ (';' :: (['\n'] ++ R)))))) := by
+    simp [treesBlockText, translateText, beginTrees, R]
+  have h1 : nextTok ro.pu ([] ++ (['B', 'E', 'G', 'I', 'N'] ++ (' ' :: ([] ++ (['T', 'R', 'E', 'E', 'S'] ++ (';' :: (['\n'] ++ R))))))) =
+      .tok ['B', 'E', 'G', 'I', 'N'] false [] ([] ++ (['T', 'R', 'E', 'E', 'S'] ++ (';' :: (['\n'] ++ R)))) := by
+    unfold nextTok
+    rw [next_word ro.pu _ [] _ _ [] (by simp) kw_BEGIN (stop_space _).1, (stop_space _).2]
+  have h2 : nextTok ro.pu ([] ++ (['T', 'R', 'E', 'E', 'S'] ++ (';' :: (['\n'] ++ R)))) =
+      .tok ['T', 'R', 'E', 'E', 'S'] false [] (';' :: (['\n'] ++ R)) := by
+    unfold nextTok
+    rw [next_word ro.pu _ [] _ _ [] (by simp) kw_TREES (stop_semi _).1, (stop_semi _).2]
+  have h3 : nextTok ro.pu (';' :: (['\n'] ++ R)) = .tok [';'] false [] (['\n'] ++ R) := by
+    unfold nextTok
+    exact next_punct ro.pu _ ';' (by decide) _ []
+  have htoks : tokenizeAll ro.pu (treesBlockText o [] trees) =
+      ⟨⟨['B', 'E', 'G', 'I', 'N'], false, []⟩ :: ⟨['T', 'R', 'E', 'E', 'S'], false, []⟩ :: ⟨[';'], false, []⟩ ::
+        (gs.flatten ++ [⟨['E', 'N', 'D'], false, []⟩, ⟨[';'], false, []⟩]), true, false⟩ := by
+    rw [etext, tokenizeAll_step _ _ _ _ _ _ h1, tokenizeAll_step _ _ _ _ _ _ h2, tokenizeAll_step _ _ _ _ _ _ h3, hlines]
+  -- the mapper is left unchanged by every statement
+  have hassign : ∀ x ∈ trees, isBlank (toRT o x.2.2.2) = false ∧
+      ∃ seen, assign ro (toRT o x.2.2.2) ⟨⟨[], ns, true⟩, []⟩ = some (decode ro (toRT o x.2.2.2), ⟨⟨[], ns, true⟩, seen⟩) := by
+    intro x hx
+    obtain ⟨_, _, hws, _, hnd, hin⟩ := hok x hx
+    refine ⟨hws, (taxaOf ro (toRT o x.2.2.2)).reverse ++ [], ?_⟩
+    have := assign_known ro ns hU (toRT o x.2.2.2) ⟨[], ns, true⟩ [] rfl (Or.inr (fun z hz => hz)) (fun z hz => hz) hin (by simpa using hnd)
+    rw [this, addAll_of_mem _ _ hin]
+  unfold nexusBlock
+  rw [htoks]
+  have uB : ucase ['B', 'E', 'G', 'I', 'N'] = ['B', 'E', 'G', 'I', 'N'] := by decide
+  have uT : ucase ['T', 'R', 'E', 'E', 'S'] = ['T', 'R', 'E', 'E', 'S'] := by decide
+  simp only [Bool.not_true, Bool.false_eq_true, if_false, uB, uT, beq_self_eq_true, Bool.and_self, if_true]
+  have hskip : skipToSemi (⟨[';'], false, []⟩ :: (gs.flatten ++ [⟨['E', 'N', 'D'], false, []⟩, ⟨[';'], false, []⟩])) =
+      gs.flatten ++ [⟨['E', 'N', 'D'], false, []⟩, ⟨[';'], false, []⟩] := by simp [skipToSemi]
+  rw [hskip]
+  have uE : ucase ['E', 'N', 'D'] = ['E', 'N', 'D'] := by decide
+  cases trees with
+  | nil =>
+    cases gs with
+    | cons g gs' => exact absurd hgs (by simp [LineGroups])
+    | nil => simp [nexusBlockLoop, uE]
+  | cons x xs =>
+    cases gs with
+    | nil => exact absurd hgs (by simp [LineGroups])
+    | cons g gs' =>
+      obtain ⟨⟨kw, nm, eq, first, rest, hg, hkw, hrestg⟩, hgs'⟩ := hgs
+      subst hg
+      have hts := tree_stmts o ro ⟨[], ns, true⟩ [⟨['E', 'N', 'D'], false, []⟩, ⟨[';'], false, []⟩]
+        ⟨by simp [skipSemis, kind], by intro t r h; cases h; rw [uE]; decide⟩ (by simp)
+        (x :: xs) ((kw :: nm :: eq :: first :: rest) :: gs') ⟨⟨kw, nm, eq, first, rest, rfl, hkw, hrestg⟩, hgs'⟩ hassign
+        kw (nm :: eq :: first :: rest) gs' rfl (by simp) []
+      have hu : ucase kw.text = ['T', 'R', 'E', 'E'] := by rw [hkw]; exact ucase_TREE
+      have hfl : ((kw :: nm :: eq :: first :: rest) :: gs').flatten ++ [⟨['E', 'N', 'D'], false, []⟩, ⟨[';'], false, []⟩] =
+          kw :: ((nm :: eq :: first :: rest) ++ (gs'.flatten ++ [(⟨['E', 'N', 'D'], false, []⟩ : TokE), ⟨[';'], false, []⟩])) := by simp
+      rw [hfl]
+      simp only [List.length_cons, nexusBlockLoop, hu]
+      have d1 : ((['T', 'R', 'E', 'E'] : Str) == ['E', 'N', 'D']) = false := by decide
+      have d2 : ((['T', 'R', 'E', 'E'] : Str) == ['E', 'N', 'D', 'B', 'L', 'O', 'C', 'K']) = false := by decide
+      have d3 : ((['T', 'R', 'E', 'E'] : Str) == ['T', 'R', 'A', 'N', 'S', 'L', 'A', 'T', 'E']) = false := by decide
+      simp only [d1, d2, d3, Bool.or_self, Bool.false_eq_true, if_false, beq_self_eq_true, if_true]
+      have hll := linegroups_len o xs gs' hgs'
+      rw [hts _ (by simp only [List.length_append, List.length_cons]; omega)]
+      simp
 
 /-! ### non-vacuity: the hypotheses are satisfiable, on trees with awkward labels and anonymous leaves -/
 
@@ -880,5 +952,28 @@ example : parseText {} ⟨exTable, ["2".toList, "1".toList, "3".toList], true⟩
   simp only [List.map] at h ⊢
   rw [h]
   simp [exDigits, comments, treeComments, isRootingComment, rootingState, strip, stripL, isSpace]
+
+/-- `nexus_trees_roundtrip` on a two-tree block, one tree named with a blank and one named `*` (written `'*'`, not the
+    default-tree marker), over the namespace of a TAXA block -/
+example : nexusBlock {} ["B".toList, "A".toList, "c_d".toList]
+      (treesBlockText {} [] [("my tree".toList, exTree1), ("*".toList, exTree2)]) =
+    some ([("my tree".toList, Aux.resultOf {} {} exTree1), ("*".toList, Aux.resultOf {} {} exTree2)],
+          ⟨[], ["B".toList, "A".toList, "c_d".toList], true⟩) :=
+  nexus_trees_roundtrip {} {} (by simp [Consistent]) _ _
+    (by
+      intro y hy
+      simp at hy
+      rcases hy with rfl | rfl
+      · refine ⟨⟨by simp, by decide⟩, ?_, ?_, by simp [exTree1], ?_, ?_⟩
+        · simp [exTree1, OkT, OkL, rawTag, joinSp, LenOk]; decide
+        · simp [exTree1, WritesSomething, Aux.toRT, Aux.toRTL, Aux.isBlank]
+        · simp [exTree1, Aux.toRT, Aux.toRTL, taxaOf, taxaOfL, Aux.tagOf, Aux.lenOf, rawTag, joinSp]
+        · simp [exTree1, Aux.toRT, Aux.toRTL, taxaOf, taxaOfL, Aux.tagOf, Aux.lenOf, rawTag, joinSp]
+      · refine ⟨⟨by simp, by decide⟩, ?_, ?_, by simp [exTree2], ?_, ?_⟩
+        · simp [exTree2, OkT, OkL, rawTag, joinSp, LenOk]; decide
+        · simp [exTree2, WritesSomething, Aux.toRT, Aux.toRTL, Aux.isBlank]
+        · simp [exTree2, Aux.toRT, Aux.toRTL, taxaOf, taxaOfL, Aux.tagOf, Aux.lenOf, rawTag, joinSp]
+        · simp [exTree2, Aux.toRT, Aux.toRTL, taxaOf, taxaOfL, Aux.tagOf, Aux.lenOf, rawTag, joinSp])
+    (by simp [CaseCons, lowerWith])
 
 end DendroModel.C02
